@@ -534,23 +534,49 @@ def rule_root(ctx):
     VERBATIM = {'ends_with', 'starts_with', 'is_empty', 'len', 'eq', 'ne', 'new_display', 'fmt', 'as_str', 'as_ref', 'deref',
                 'as_deref', 'unwrap', 'unwrap_or', 'unwrap_or_default', 'map', 'is_some', 'is_none', 'clone', 'to_owned',
                 'to_string', 'into', 'from', 'push_str', 'as_bytes', 'last', 'chars', 'borrow'}
+    THROUGH_ROOT = {'deref', 'as_deref', 'unwrap', 'as_ref', 'unwrap_or', 'unwrap_or_default', 'as_str', 'borrow'}
+    # parameters of crate-local functions that receive the root value from a caller (fix-point over call sites)
+    root_params = set()
+
+    def is_root(b, e):
+        for x, _fs in access_paths(e, through_calls=THROUGH_ROOT):
+            if x[0] == 'call' and x[1].endswith('::source_root'):
+                return True
+            if x[0] == 'arg' and (x[3], x[1]) in root_params:
+                return True
+        return False
+    changed = True
+    while changed:
+        changed = False
+        for b in f.body_list:
+            if b.promoted is not None or b.d.get('impl_adt') == sm:
+                continue
+            for pt, t in b.calls():
+                c = t.get('callee')
+                hb = f.body(c.get('resolved') or c['path']) if c else None
+                if hb is None or hb.d['kind'] == 'Closure':
+                    continue
+                for i, a in enumerate(t['args']):
+                    if (hb.key, i + 1) not in root_params and is_root(b, b.expr_of_operand(a)):
+                        root_params.add((hb.key, i + 1))
+                        changed = True
     for b in f.body_list:
         if b.promoted is not None:
             continue
         roots_ = [pt for pt, t in b.calls() if t.get('callee') and t['callee']['name'] == 'source_root'
                   and t['callee'].get('impl_adt') == sm]
-        if not roots_ or b.d.get('impl_adt') == sm:
+        if (not roots_ and not any(k == b.key for k, _ in root_params)) or b.d.get('impl_adt') == sm:
             continue
         for pt, t in b.calls():
             c = t.get('callee')
             if not c or not t['args'] or c['name'] == 'source_root':
                 continue
             e = b.expr_of_operand(t['args'][0])
-            derived = any(x[0] == 'call' and x[1].endswith('::source_root') for x, _fs in access_paths(
-                e, through_calls={'deref', 'as_deref', 'unwrap', 'as_ref', 'unwrap_or', 'unwrap_or_default', 'as_str', 'borrow'}))
+            derived = is_root(b, e)
             if not derived:
                 continue
-            ok = c['name'] in VERBATIM
+            hb = f.body(c.get('resolved') or c['path'])
+            ok = c['name'] in VERBATIM or (hb is not None and hb.d['kind'] != 'Closure')   # a local function: checked at its own uses
             r.site('%s: sourceRoot value used by `%s`' % (b.path, c['name']), t['s'], 'ok' if ok else 'violation')
             if not ok:
                 r.violation('%s:root-transformed:%s' % (b.path, c['name']), t['s'], b.path,
@@ -1359,5 +1385,80 @@ def rule_tee_forward(ctx):
                             'the %s notification is not forwarded to the caller on some path (for instance only when columns are '
                             'requested): a consumer of the first, cache-filling stream misses an announcement that the chunks it receives '
                             'refer to' % kind)
+    r.check_floor()
+    return r
+
+
+def rule_prefill(ctx):
+    """lazily resolved translation tables are pre-filled with their sentinel for every announced key"""
+    f = ctx.facts()
+    r = RuleResult('PREFILL', 'a translation table whose readers treat a negative sentinel as "not resolved yet" (`get(k).unwrap_or(-2)`, '
+                              '`== -2`) receives that sentinel for every key its child announces, in the announcement callback and on '
+                              'every path: LinearMap pads the gaps below an inserted key with 0, which is a valid index, so a key that '
+                              'was never pre-filled would read as "already mapped to entry 0"')
+    r.floor = 3
+    comps, ol = composites(f)
+    for root, members, inner in comps:
+        org = Origins(f, members)
+        lazy = {}      # table root -> (sentinel, site)
+        for m in members:
+            for pt, t in m.calls():
+                c = t.get('callee')
+                if not c or c['name'] != 'unwrap_or' or len(t['args']) != 2:
+                    continue
+                a1 = t['args'][1]
+                if a1['k'] != 'const' or not isinstance(a1.get('int'), int) or a1['int'] >= 0:
+                    continue
+                e = m.expr_of_operand(t['args'][0])
+                for x in walk(e):
+                    if x[0] == 'call' and x[1].rsplit('::', 1)[-1] in ('get', 'get_mut') and x[2]:
+                        tr_ = org.table_root(x[2][0])
+                        if tr_ is not None:
+                            lazy.setdefault(tr_, (a1['int'], t['s'], m))
+        for tr_, (sentinel, site, rm) in sorted(lazy.items(), key=repr):
+            ok = False
+            for m in inner:
+                if closure_kind(m) not in ('source', 'name'):
+                    continue
+                stops = set()
+                for pt, t in m.calls():
+                    c = t.get('callee')
+                    if c and c['name'] == 'insert' and len(t['args']) == 3 \
+                            and org.table_root(m.expr_of_operand(t['args'][0])) == tr_:
+                        # a sentinel or an already resolved value: either way the key gets an explicit entry
+                        key_e = m.expr_of_operand(t['args'][1])
+                        if any(x[0] == 'arg' and x[3] == m.key for x in walk(key_e)):
+                            stops.add(pt[0])
+                if stops and not any(rb in m.reachable(0, blocked=stops) for rb in m.return_blocks()):
+                    ok = True
+            tl = [x for x in walk(tr_) if x[0] == 'call'] if isinstance(tr_, tuple) else []
+            name = None
+            if isinstance(tr_, tuple) and len(tr_) > 3 and isinstance(tr_[3], tuple) and len(tr_[3]) == 2:
+                # the table was created by a call at this point of the root body: name it after the variable that holds it
+                try:
+                    term = root.term(tr_[3][0])
+                    loc = term['dest']['l'] if term['k'] == 'call' else None
+                    for _ in range(4):
+                        if loc is None or root.local_name(loc):
+                            break
+                        nxt = [s2['p']['l'] if k2 == 'assign' else s2['dest']['l'] for pt2, s2 in root.points()
+                               for k2 in [s2['k']] if k2 in ('assign', 'call') and not (s2['p'] if k2 == 'assign' else s2['dest'])['pr']
+                               and any(isinstance(a, dict) and a.get('k') in ('move', 'copy') and a['p']['l'] == loc and not a['p']['pr']
+                                       for a in ([s2['r'].get('o')] + list(s2['r'].get('ops') or []) if k2 == 'assign' else s2['args']))]
+                        loc = nxt[0] if nxt else None
+                    if loc is not None and root.local_name(loc):
+                        name = root.local_name(loc)
+                except Exception:
+                    name = None
+            if name is None:
+                name = 'table'
+            dbg = root.d.get('debug') or []
+            r.site('%s: lazily resolved table `%s` receives an explicit entry (sentinel or resolved value) for every announced key' % (root.path, name), site,
+                   'ok' if ok else 'violation')
+            if not ok:
+                r.violation('%s:%s' % (root.path, name), site, rm.path,
+                            'the table `%s` is read with a negative sentinel (%d) meaning "not resolved yet", but no announcement callback '
+                            'stores a sentinel for every announced key on every path: when a higher key is resolved first, the padded '
+                            'entries below it read as index 0 and segments are attributed to another file / name' % (name, sentinel))
     r.check_floor()
     return r
